@@ -539,6 +539,28 @@ def updRemoveStep (st : St) (kv : Str × Str × Nat) : Except Err St :=
     | none => .error (.internal .valueError)
     | some st' => .ok (st'.markUpdated mp')
 
+/-- one entry of a Manifest applying to `cmpath`: a MANIFEST entry naming `cmpath` is refreshed in place (with the
+    hash names it has) -/
+def refreshChainStep (w : World) (cmpath om odir : Str) (st : St) (ie : IEntry) : Except Err St :=
+  match st.val ie.1 with
+  | some (.file .MANIFEST p n c) =>
+    if pjoin odir p == cmpath then
+      match objAt w cmpath with
+      | .error e => .error e
+      | .ok ob => match refreshEntry ob cmpath (.file .MANIFEST p n c) none st.dev? none with
+        | .error e => .error e
+        | .ok (e', changed) => .ok (if changed then (st.setVal ie.1 e').markUpdated om else st)
+    else .ok st
+  | _ => .ok st
+
+/-- the Manifests above `path` are not met by the walk: the MANIFEST entries for them are refreshed before it, so that a
+    stale entry for one of them does not survive the update (repair of finding F28) -/
+def refreshChain (w : World) (path : Str) (s : St) (stack : List (Str × Str)) : Except Err St :=
+  foldE (fun (st : St) (cm : Str × Str) =>
+    if pathStartsWith cm.2 path then .ok st
+    else foldE (fun (st : St) (kdv : Str × Str × List Entry) =>
+        foldE (refreshChainStep w cm.1 kdv.1 kdv.2.1) st (st.entriesOf kdv.1)) st (iterManifests st.plain cm.1 false)) s stack
+
 /-- `update_entries_for_directory(path, hashes, last_mtime)` -/
 def updateDir (w : World) (s : St) (path : Str) (o : Opts) : Except Err St :=
   match loadUnregistered w s path with
@@ -556,7 +578,10 @@ def updateDir (w : World) (s : St) (path : Str) (o : Opts) : Except Err St :=
         | none, _ => .error .abstain
         | _, none => .error .abstain
         | some rel, some (.dir d i ks) =>
-          (match updWalk w o newMs { st := s2, ud := ud, stack := stack0 } (sysTop rel) rel (.dir d i ks) with
+          (match refreshChain w path s2 stack0 with
+           | .error e => .error e
+           | .ok s3 =>
+           match updWalk w o newMs { st := s3, ud := ud, stack := stack0 } (sysTop rel) rel (.dir d i ks) with
            | .error e => .error e
            | .ok ws =>
              -- entries whose file was not met: removed (unless IGNORE)
